@@ -2,7 +2,7 @@
 # runall.sh [quick|thorough] [ids...] : run the registered checks one after the other (evidence is rewritten)
 tier=${1:-quick}; shift
 ids=${@:-C01 C02 C03 C04 C05 C06 C07 C08 C09 C10 C11 C12 C13 C14 C15 C16 C17 C18 C19 C20}
-cd /verif
+cd "$(dirname "$(readlink -f "$0")")/.." && mkdir -p .build
 for id in $ids; do
   s=$(date +%s)
   ./check $id --tier $tier > .build/runall-$id.log 2>&1
